@@ -131,6 +131,10 @@ def gen_raire(rng):
     ncon = rng.randint(1, 3)
     cons = [f"{100 + j}" for j in range(ncon)]
     cands = {c: [str(rng.randint(1, 9) * 10 + k) for k in range(rng.randint(2, 5))] for c in cons}
+    if rng.random() < 0.3:
+        # the format is CSV: names may be quoted and contain commas or quotes
+        for c in cons:
+            cands[c] = [rng.choice(("Smith, John", "O\"Neil", "Lee", "Ng, A.", "van der Berg", "X Y")) + str(k) for k in range(len(cands[c]))]
     rows = [[str(ncon)]]
     for c in cons:
         rows.append(["Contest", c, str(len(cands[c]))] + cands[c] + ["winner", cands[c][0]])
@@ -218,9 +222,9 @@ def run_case(case, rec):
             d = env.scratch_dir("c18")
             try:
                 path = os.path.join(d, "in.raire")
-                with open(path, "w") as f:
-                    for r in rows:
-                        f.write(",".join(r) + "\n")
+                import csv
+                with open(path, "w", newline="") as f:
+                    csv.writer(f, delimiter=",", quotechar='"', quoting=csv.QUOTE_MINIMAL, lineterminator="\n").writerows(rows)
                 ok, res = rec.guard("c18.call:from_raire_file", CVR.from_raire_file, path)
             finally:
                 shutil.rmtree(d, ignore_errors=True)
